@@ -23,6 +23,7 @@ import Driver.Dialer
 import Driver.C10
 import Driver.C04
 import Driver.C17
+import Driver.OSGlue
 
 open Corerad
 
@@ -45,7 +46,10 @@ def handlers : List (String × (List String → List String → Option Verdict))
   ("d10", Driver.Dialer.d10), ("d11", Driver.Dialer.d11), ("rd", Driver.Dialer.rd),
   ("grp", Driver.C10.grp),
   ("pth", Driver.C04.pth),
-  ("scr", Driver.C17.scr), ("api", Driver.C17.api), ("rt", Driver.C17.rt)
+  ("scr", Driver.C17.scr), ("api", Driver.C17.api), ("rt", Driver.C17.rt),
+  ("pr", Driver.OSGlue.pr), ("osc", Driver.OSGlue.osc),
+  ("ci", Driver.OSGlue.ci), ("li", Driver.OSGlue.li), ("nsi", Driver.OSGlue.nsi),
+  ("ab", Driver.OSGlue.ab), ("rb", Driver.OSGlue.rb)
 ]
 
 def runLine (line : String) : String :=
